@@ -49,6 +49,15 @@ func (r *v12Run) state() v12State {
 
 func (r *v12Run) countPartitions(stream string) int32 { return r.parts[stream] }
 
+func (r *v12Run) allExist(streams []string) bool {
+	for _, s := range streams {
+		if r.parts[s] == 0 {
+			return false
+		}
+	}
+	return true
+}
+
 // applyLeave is what fsm.go/metadata.go do with a committed LEAVE_CONSUMER_GROUP
 func (r *v12Run) applyLeave(c string) string {
 	r.idx++
@@ -99,6 +108,12 @@ func (r *v12Run) step(id int, step map[string]interface{}) v12Event {
 		case "CreateGroup":
 			c, coord, streams := vStr(step, "c"), vStr(step, "coord"), vFStrs(step, "streams")
 			args["c"], args["coord"], args["streams"] = c, coord, streams
+			// leader-side admission is metadata glue (played here; the real
+			// checkCreateConsumerGroupPreconditions runs in the Server.apply binding)
+			if r.groups[r.servers[0]] != nil || !r.allExist(streams) {
+				obs.Err = "precondition"
+				return
+			}
 			r.idx++
 			for _, v := range r.servers {
 				if r.groups[v] != nil {
@@ -118,6 +133,10 @@ func (r *v12Run) step(id int, step map[string]interface{}) v12Event {
 		case "Join":
 			c, streams := vStr(step, "c"), vFStrs(step, "streams")
 			args["c"], args["streams"] = c, streams
+			if g := r.groups[r.servers[0]]; g == nil || g.IsMember(c) || !r.allExist(streams) {
+				obs.Err = "precondition"
+				return
+			}
 			r.idx++
 			for _, v := range r.servers {
 				g := r.groups[v]
